@@ -359,7 +359,7 @@ def do_ranges_cli(sc, wd, res):
     clih.write_text(inp, clih.fastq_text([("r", "ACGT", "IIII")]))
     js = os.path.join(wd, "r.json")
     for seq in ("ACGTACGGTTGACCA", "ACGTNNNNNNACGTTGCA", "A" * 33, "ACGTACGGTTGACCAGGTTAACCGGTTAAC" + "N" * 10, "ACGTACG", "ACGNNTACG",
-                "ACGTACGGT", "ACGTACGGTTG", "ACGTACGGTTGAC"):
+                "ACGTACGGT", "ACGTACGGTTG", "ACGTACGGTTGAC", ("ACGTTGCAAGCTTCGA" * 4)[:47], ("GATTACAGGCTTAACC" * 4)[:49]):
         eff = len(seq) - seq.count("N")
         # rates as typed, and absolute error counts (converted to the rate k / non-N bases: 1/7, 2/9, 3/11 ... do not terminate)
         for given in (0.1, 0.12, 0.2, 0.33, 0.07, 0.25, 1, 2, 3):
@@ -379,6 +379,27 @@ def do_ranges_cli(sc, wd, res):
                 V.append(("ranges:json", f"JSON error_lengths {lengths} do not state floor(L x {rate}) for L={bad[:3]} (non-N adapter bases: {eff})",
                           dict(adapter=seq, rate=rate)))
             txt = r.report_text()
+            # the same adapter anchored: one number, and the max.err column of the table of removed lengths
+            inp2 = os.path.join(wd, "in2.fq")
+            clih.write_text(inp2, clih.fastq_text([("r", seq.replace("N", "A") + "CCCC", "I" * (len(seq) + 4)), ("s", seq.replace("N", "C")[:-1] + "TCC", "I" * (len(seq) + 2))]))
+            r2 = clih.run_cli(["-e", repr(given), "-g", f"x=^{seq}", "-o", os.path.join(wd, "o2.fq"), inp2])
+            res["runs"] += 1
+            if r2.exit == 0:
+                t2 = r2.report_text().splitlines()
+                for k, ln in enumerate(t2):
+                    if ln.startswith("No. of allowed errors:") and ln.split(":")[1].strip().isdigit():
+                        if int(ln.split(":")[1]) != int(eff * rate):
+                            V.append(("ranges:text", f"anchored adapter: '{ln}', floor({eff} x {rate}) = {int(eff * rate)}", dict(adapter=seq, rate=rate)))
+                    if ln.startswith("length\tcount\texpect\tmax.err"):
+                        for row in t2[k + 1:]:
+                            cols = row.split("\t")
+                            if len(cols) < 4 or not cols[0].isdigit():
+                                break
+                            L = int(cols[0])
+                            if int(cols[3]) != int(rate * min(L, eff)):
+                                V.append(("ranges:max.err", f"table row '{row}' states max.err {cols[3]}, floor({min(L, eff)} x {rate}) = "
+                                          f"{int(rate * min(L, eff))}", dict(adapter=seq, rate=rate)))
+                                break
             line = None
             lines = txt.splitlines()
             for k, ln in enumerate(lines):
